@@ -7,7 +7,7 @@ from .C09 import brute
 from lapy import TriaMesh
 
 ORIENTABLE = ["grid", "lifted", "delaunay", "delaunay-lifted", "icosphere", "ellipsoid", "octahedron", "tetra-surface", "torus",
-              "cylinder", "holes", "two-components", "two-spheres"]
+              "cylinder", "holes", "two-components", "two-spheres", "pinched-closed", "pinched-open"]
 
 
 def impl_orient(v, t, it=None):
@@ -49,7 +49,7 @@ class Check(BaseCheck):
     def cases(self):
         n, size = (40, "small") if self.quick else (700, "large")
         k = 0
-        for c in gen.tria_stream(self.seed + 21, n, size, classes=ORIENTABLE + ["fan3"]):
+        for c in gen.tria_stream(self.seed + 21, n, size, classes=ORIENTABLE + ["fan3"], first=("pinched-closed", "pinched-open", "two-spheres")):
             rng = gen.rng_for(self.seed, "c10", k); k += 1
             t = c["t"]
             if c["name"] != "fan3":
